@@ -192,12 +192,154 @@ fn extra_line(rng: &mut Rng, h: &[Op], p: usize) -> (Vec<u8>, &'static str, Vec<
     }
 }
 
+/// how often the concurrent scenario is repeated natively (real OS threads: the kernel decides
+/// the interleaving there, so one round proves little); raised for minimisation and replay.
+/// Under Miri one round: Miri's seeded scheduler decides every preemption, and its race
+/// detector needs no lucky timing.
+pub static THREAD_ROUNDS: std::sync::atomic::AtomicUsize = std::sync::atomic::AtomicUsize::new(6);
+
+pub fn set_thread_rounds(n: usize) {
+    THREAD_ROUNDS.store(n, std::sync::atomic::Ordering::Relaxed);
+}
+
+/// concurrent shape: 2-3 parsers, each with its own stream, each driven from its own thread
+fn generate_threads(seed: u64, run: u64) -> Scenario {
+    let mut rng = Rng::new(seed ^ 0x5eed_0f_7c17);
+    let (ops, nodes, desc) = chaos_ops(&mut rng, LinkProfile::Reassembly, true, 3, 36);
+    let nodes = nodes.max(2);
+    // deal the lines over the nodes by group, so that every thread has fragments to reassemble
+    let ops: Vec<Op> = ops
+        .into_iter()
+        .map(|o| match o {
+            Op::Line(mut l) => {
+                l.node = match &l.sent {
+                    Some(s) => (s.id.unwrap_or(0) as usize + s.n as usize + s.piece.len() % 2) % nodes,
+                    None => l.node % nodes,
+                };
+                Op::Line(l)
+            }
+            o => o,
+        })
+        .collect();
+    Scenario {
+        prop: "C17".into(),
+        seed,
+        run,
+        nodes,
+        ops,
+        stream: None,
+        hidden_faults: take_hidden_faults(),
+        config: format!("shape=threads {}", desc),
+    }
+}
+
+/// one node's stream against a fresh parser of `build`
+fn run_stream(build: Build, stream: &[(usize, &Op)]) -> Vec<(usize, Outcome)> {
+    let mut n = new_node(build);
+    let mut out = Vec::with_capacity(stream.len());
+    for (i, op) in stream {
+        match op {
+            Op::Line(l) => out.push((*i, n.parse(&l.bytes, l.decode, l.conv_result))),
+            Op::Restart { .. } => n.restart(),
+            _ => {}
+        }
+    }
+    out
+}
+
+/// Independence under real concurrency: every node's stream is run on its own OS thread, all at
+/// the same time (barrier start), and each thread's log must equal the log of the same stream
+/// run alone. Natively the kernel schedules the threads (repeated rounds; confirmation only);
+/// under Miri (thorough tier) the interleaving is a function of -Zmiri-seed and data races on
+/// shared statics are reported whatever the timing.
+fn judge_threads(sc: &Scenario, build: Build, st: &mut Option<&mut Stats>) -> Option<Violation> {
+    use std::sync::atomic::{AtomicBool, Ordering};
+    let nodes = sc.nodes.max(2);
+    let streams: Vec<Vec<(usize, &Op)>> = (0..nodes)
+        .map(|node| {
+            sc.ops
+                .iter()
+                .enumerate()
+                .filter(|(_, o)| match o {
+                    Op::Line(l) => l.node.min(nodes - 1) == node,
+                    Op::Restart { node: n } => (*n).min(nodes - 1) == node,
+                    _ => false,
+                })
+                .collect()
+        })
+        .collect();
+    let solo: Vec<Vec<(usize, Outcome)>> = streams.iter().map(|s| run_stream(build, s)).collect();
+    let rounds = if cfg!(miri) { 1 } else { THREAD_ROUNDS.load(Ordering::Relaxed).max(1) };
+    let barrier = std::sync::Barrier::new(nodes);
+    let stop = AtomicBool::new(false);
+    let diverged: std::sync::Mutex<Option<(usize, usize, Outcome, Outcome, usize)>> = std::sync::Mutex::new(None);
+    let rounds_done = std::sync::atomic::AtomicUsize::new(0);
+    std::thread::scope(|scope| {
+        for node in 0..nodes {
+            let (streams, solo, barrier, stop, diverged, rounds_done) = (&streams, &solo, &barrier, &stop, &diverged, &rounds_done);
+            scope.spawn(move || {
+                for round in 0..rounds {
+                    // two barriers per round: `stop` is written only between the first and the
+                    // second and read only between the second and the next first, so that all
+                    // threads take the same decision and nobody waits alone
+                    barrier.wait();
+                    let log = run_stream(build, &streams[node]);
+                    if node == 0 {
+                        rounds_done.fetch_add(1, Ordering::Relaxed);
+                    }
+                    if let Some(((i, got), (_, want))) = log.iter().zip(solo[node].iter()).find(|(a, b)| a.1 != b.1) {
+                        let mut d = diverged.lock().unwrap();
+                        if d.is_none() {
+                            *d = Some((node, *i, got.clone(), want.clone(), round));
+                        }
+                        stop.store(true, Ordering::Release);
+                    }
+                    barrier.wait();
+                    if stop.load(Ordering::Acquire) {
+                        break;
+                    }
+                }
+            });
+        }
+    });
+    if let Some(st) = st.as_deref_mut() {
+        st.judged += 1;
+        st.probe("concurrent scenario judged (one OS thread per parser)");
+        *st.dyn_probes.entry("concurrent rounds executed".to_string()).or_insert(0) += rounds_done.load(Ordering::Relaxed) as u64;
+    }
+    let d = diverged.into_inner().unwrap();
+    d.map(|(node, at, got, want, round)| Violation {
+        prop: "C17".into(),
+        clause: "parser-instances-influence-each-other".into(),
+        at,
+        build: build.name().into(),
+        detail: format!(
+            "operation {} on parser {} answers {} while {} other parser(s) run on other threads (round {}) and {} when it runs alone",
+            at,
+            node,
+            got.brief(),
+            nodes - 1,
+            round,
+            want.brief()
+        ),
+        site: "concurrent-threads".into(),
+    })
+}
+
 impl Prop for C17 {
     fn id(&self) -> &'static str {
         "C17"
     }
 
     fn generate(&self, seed: u64, run: u64) -> Scenario {
+        // concurrent shape: decided by a hash of the seed that is independent of the run's own
+        // PRNG stream, so that every other run is exactly what it was before this shape existed
+        let forced = crate::props::forced_shape();
+        let mut h = seed ^ 0x7c17_7c17_7c17_7c17;
+        let pick = crate::rng::splitmix64(&mut h);
+        if forced == Some("threads") || (forced.is_none() && pick % 64 == 0) {
+            return generate_threads(seed, run);
+        }
         let mut rng = Rng::new(seed);
         if rng.ratio(1, 5) {
             // independence shape: 2-3 parsers, each with its own stream, interleaved
@@ -298,7 +440,19 @@ impl Prop for C17 {
         if v.is_some() {
             return v;
         }
-        judge_on(sc, Build::None, &mut None)
+        let v = judge_on(sc, Build::None, &mut None);
+        if v.is_some() {
+            return v;
+        }
+        if sc.config.starts_with("shape=threads") {
+            for build in Build::ALL {
+                let v = if build == Build::Std { judge_threads(sc, build, &mut st) } else { judge_threads(sc, build, &mut None) };
+                if v.is_some() {
+                    return v;
+                }
+            }
+        }
+        None
     }
 }
 
